@@ -124,6 +124,7 @@ type pathCtx struct {
 	unknowns   int
 	unwind     int
 	unwindCut  bool // exceeding the unwinding bound prunes the path (declared bound) instead of failing it
+	unwindFail bool // exceeding the bound is a violation: the harness states the loop must terminate within it
 	allocLimit int64
 	mapOrderAll bool
 	preempt    int // remaining preemptions
